@@ -791,8 +791,21 @@ class Encoder:
                     p['id'] = ev(e.args[0]).as_long()
                 elif kind in ('observe', 'result'):
                     p['what'] = e.extra
+                    if kind == 'result' and len(e.args) >= 3:
+                        p['some'] = bool(z3.is_true(ev(e.args[1])))
+                        p['id'] = ev(e.args[2]).as_long()
+                    elif kind == 'observe' and e.args:
+                        p['arg'] = ev(e.args[0]).as_long()
                 out.append((tn, kind, p))
         return out
+
+    def replay_info(self, m):
+        """everything the controlled-runtime replay needs, as plain data"""
+        ev = lambda e: m.eval(e, model_completion=True)
+        SK = self.S[self.K]
+        return {'ops': self.trace_ops(m),
+                'parked': sorted(t.name for t in self.threads if z3.is_true(ev(SK['parked:' + t.name])) and z3.is_true(ev(SK['active:' + t.name]))),
+                'finished': sorted(t.name for t in self.threads if z3.is_true(ev(self.at_term(t, SK))))}
 
     def trace(self, m):
         """readable schedule from a model"""
